@@ -62,18 +62,6 @@ func (g *FuncGen) heapGet(h *Heap, name, srt string) string {
 		if g.alloc0 != "" {
 			g.closure(name, t, g.alloc0)
 		}
-		if false {
-			switch g.mapRefKind[name] {
-			case "ref":
-				g.assert(fmt.Sprintf("(forall ((r Int)) (! (and (<= 0 (select %s r)) (< (select %s r) %s)) :pattern ((select %s r))))", t, t, g.alloc0, t))
-			case "slice":
-				g.assert(fmt.Sprintf("(forall ((r Int)) (! (and (wf_slice (select %s r)) (< (s_arr (select %s r)) %s)) :pattern ((select %s r))))", t, t, g.alloc0, t))
-			case "elemref":
-				g.assert(fmt.Sprintf("(forall ((a Int) (i Int)) (! (and (<= 0 (select (select %s a) i)) (< (select (select %s a) i) %s)) :pattern ((select (select %s a) i))))", t, t, g.alloc0, t))
-			case "elemslice":
-				g.assert(fmt.Sprintf("(forall ((a Int) (i Int)) (! (and (wf_slice (select (select %s a) i)) (< (s_arr (select (select %s a) i)) %s)) :pattern ((select (select %s a) i))))", t, t, g.alloc0, t))
-			}
-		}
 	case hOverride:
 		if h.name == name {
 			t = h.term
@@ -115,17 +103,19 @@ func (g *FuncGen) heapGet(h *Heap, name, srt string) string {
 	return t
 }
 
-// closure: every reference stored in heap map t is below the allocation counter `alloc` of that heap.
+// closure: every reference stored in an *allocated* cell of heap map t is below the
+// allocation counter `alloc` of that heap (cells of objects not yet allocated are arbitrary:
+// a callee's fresh objects live there).
 func (g *FuncGen) closure(name, t, alloc string) {
 	switch g.mapRefKind[name] {
 	case "ref":
-		g.assert(fmt.Sprintf("(forall ((r Int)) (! (and (<= 0 (select %s r)) (< (select %s r) %s)) :pattern ((select %s r))))", t, t, alloc, t))
+		g.assert(fmt.Sprintf("(forall ((r Int)) (! (=> (< r %s) (and (<= 0 (select %s r)) (< (select %s r) %s))) :pattern ((select %s r))))", alloc, t, t, alloc, t))
 	case "slice":
-		g.assert(fmt.Sprintf("(forall ((r Int)) (! (and (wf_slice (select %s r)) (< (s_arr (select %s r)) %s)) :pattern ((select %s r))))", t, t, alloc, t))
+		g.assert(fmt.Sprintf("(forall ((r Int)) (! (=> (< r %s) (and (wf_slice (select %s r)) (< (s_arr (select %s r)) %s))) :pattern ((select %s r))))", alloc, t, t, alloc, t))
 	case "elemref":
-		g.assert(fmt.Sprintf("(forall ((a Int) (i Int)) (! (and (<= 0 (select (select %s a) i)) (< (select (select %s a) i) %s)) :pattern ((select (select %s a) i))))", t, t, alloc, t))
+		g.assert(fmt.Sprintf("(forall ((a Int) (i Int)) (! (=> (< a %s) (and (<= 0 (select (select %s a) i)) (< (select (select %s a) i) %s))) :pattern ((select (select %s a) i))))", alloc, t, t, alloc, t))
 	case "elemslice":
-		g.assert(fmt.Sprintf("(forall ((a Int) (i Int)) (! (and (wf_slice (select (select %s a) i)) (< (s_arr (select (select %s a) i)) %s)) :pattern ((select (select %s a) i))))", t, t, alloc, t))
+		g.assert(fmt.Sprintf("(forall ((a Int) (i Int)) (! (=> (< a %s) (and (wf_slice (select (select %s a) i)) (< (s_arr (select (select %s a) i)) %s))) :pattern ((select (select %s a) i))))", alloc, t, t, alloc, t))
 	}
 }
 
